@@ -48,6 +48,21 @@ CLAIMED = {
         note="floats modelled as reals; periodic cells are concrete rational (orthogonal and triclinic) with rint as a function "
              "symbol + lemma instances; coincident particles excluded; N=4 only with two concrete particles (thorough).",
         ref="DESIGN.md C05"),
+    "C03": dict(
+        text="Bounded symbolic model checking of gr(...).getresults(): for all real positions, box lengths and bin widths "
+             "(N=3 fully symbolic for K<=3, ladder families for K=4..6) every returned column is decided equal to the "
+             "normalised pair histogram, the sum rule and the column set; the species-pair selectors of binary..quinary are "
+             "taken from the AST and z3 decides their classification for all type pairs.",
+        note="floats modelled as reals; np.histogram modelled by its documented semantics; int(Lmin/2/delta) concretised by "
+             "forking (B<=2 quick, 3 thorough); CSV formatting not modelled.",
+        ref="DESIGN.md C03"),
+    "C04": dict(
+        text="Bounded symbolic model checking of sq(...).getresults(): all real positions in concrete unequal-edge boxes; every "
+             "S_ab(q) column decided equal to the density-mode definition averaged over equal |q|, sum rule, non-negativity "
+             "(sum-of-squares form) and the default wave-vector table decided against its definition.",
+        note="floats modelled as reals; one (cos,sin) pair per distinct phase; round(6) is the identity in the symbolic run "
+             "(2e-6 tolerance in replays); box concrete; Q<=4 vectors, N<=7.",
+        ref="DESIGN.md C04"),
 }
 
 NOT_APPLICABLE = {
